@@ -8,7 +8,7 @@ component-level clause ("a's components followed by b's") is not proved for Wind
 the Windows append lemma and is false at known finding K3 (`win_push_K3_witness`).
 -/
 import TypedPathVerif.Spec.JoinRules
-import TypedPathVerif.Props.C04
+import TypedPathVerif.Lemmas.Append
 
 namespace TP.C08
 
